@@ -76,8 +76,17 @@ def step(W, objs, op, hist):
             r = ctx.call("musig_nonce_gen_counter", o.bytes, 1, cnt, W.kp[k], W.msg, cache, None, config=config, ill=ill)
             ks = musig.nonce_gen_counter(cnt, b32(W.d[k]), W.pk33[k], xbytes(W.K.Q), W.msg, None)
         else:
-            r = ctx.call("musig_nonce_gen", o.bytes, want_pn, rand, sk, W.pko[k], W.msg, cache, None, config=config, ill=ill)
-            ks = musig.nonce_gen(rand, sk, W.pk33[k], xbytes(W.K.Q), W.msg, None)
+            # the optional arguments (secret key, message, key-aggregation cache, extra input) are present or absent in every
+            # combination over a run, for successful generation and for the all-zero-randomness refusal alike
+            sk_a, msg_a, cache_a, extra_a = sk, W.msg, cache, None
+            if name in ("gen", "gen_zero_rand"):
+                opt = W.counter % 16
+                if opt & 1: sk_a = None
+                if opt & 2: msg_a = None
+                if opt & 4: cache_a = None
+                if opt & 8: extra_a = sha(b"extra" + rand)
+            r = ctx.call("musig_nonce_gen", o.bytes, want_pn, rand, sk_a, W.pko[k], msg_a, cache_a, extra_a, config=config, ill=ill)
+            ks = musig.nonce_gen(rand, sk_a, W.pk33[k], xbytes(W.K.Q) if cache_a is not None else None, msg_a, extra_a)
         if r is None: return False
         ok_expected = name in ("gen", "gen_counter")
         if r.ret != (1 if ok_expected else 0): return fail("ret", repr(r))
